@@ -97,22 +97,19 @@ class GotranPythonCodePrinter(PythonCodePrinter):
         return "".join(result)
 
     def _print_And(self, expr):
-        if len(expr.args) == 2:
-            value = f"numpy.logical_and({self._print(expr.args[0])}, {self._print(expr.args[1])})"
-        else:
-            args = ", ".join(self._print(arg) for arg in expr.args)
-            value = f"numpy.logical_and.reduce(({args}))"
-
+        # Nest the binary ufunc: ``logical_and.reduce`` over a tuple is not
+        # accepted by jax.numpy (and reduces over axis 0 of a stacked array)
+        args = [self._print(arg) for arg in expr.args]
+        value = args[-1]
+        for arg in reversed(args[:-1]):
+            value = f"numpy.logical_and({arg}, {value})"
         return value
 
     def _print_Or(self, expr):
-        # value = super()._print_Or(expr)
-        if len(expr.args) == 2:
-            value = f"numpy.logical_or({self._print(expr.args[0])}, {self._print(expr.args[1])})"
-        else:
-            args = ", ".join(self._print(arg) for arg in expr.args)
-            value = f"numpy.logical_or.reduce(({args}))"
-
+        args = [self._print(arg) for arg in expr.args]
+        value = args[-1]
+        for arg in reversed(args[:-1]):
+            value = f"numpy.logical_or({arg}, {value})"
         return value
 
     # def _print_Equality(self, expr):
